@@ -136,6 +136,19 @@ class StubAtoms:
         self.positions = np.dot(f, self.cell)
 
     # -- constructors of new systems
+    __hash__ = object.__hash__
+
+    def __eq__(self, other):
+        """ase.Atoms.__eq__: same number of atoms, positions, numbers, cell and pbc"""
+        if not isinstance(other, StubAtoms):
+            return False
+        if len(self) != len(other) or list(self.numbers) != list(other.numbers) or list(self.pbc) != list(other.pbc):
+            return False
+        return all(x is y or bool(x == y) for a, b in ((self.positions, other.positions), (self.cell, other.cell)) for x, y in zip(np.ravel(a), np.ravel(b)))
+
+    def __ne__(self, other):
+        return not self.__eq__(other)
+
     def copy(self):
         a = StubAtoms(numbers=self.numbers.copy(), positions=self.positions.copy(), cell=self.cell.copy(), pbc=self.pbc.copy(),
                       masses=None if self.masses is None else self.masses.copy())
